@@ -121,6 +121,7 @@ def main(argv=None) -> int:
         extra["selftest"] = selftest_summary
     # how the analysed tree relates to the reviewed reference snapshot (hsa/align.py, hsa/equiv.py)
     norm = {f"{n}.{q}": e for n, m in repo.modules.items() for q, e in m.normalised.items()}
+    norm.update({k: {"<renamed function>": v} for k, v in getattr(repo, "renamed_functions", {}).items()})
     extra["reference_alignment"] = {
         "functions_differing_from_reference_and_normalised": len(norm),
         "functions_proved_equivalent_to_reference_by_path_summary": sum(1 for e in norm.values() if "<equivalent to reference>" in e),
